@@ -18,7 +18,12 @@ pub enum Body {
     Stop,
     /// a line whose text is only statement separators (`:` / `::`): non-empty, does nothing
     Colons,
+    /// an assignment to a variable whose name is also a command word (`TRACE = 5`): a program line like
+    /// any other, not the command
+    Word,
 }
+
+const WORDS: &[&str] = &["TRACE", "STATS", "LIST", "RUN", "NEW"];
 
 #[derive(Clone, Debug, PartialEq, Serialize, Deserialize)]
 pub enum StoreOp {
@@ -72,6 +77,7 @@ fn body_text(body: &Body, tag: u32) -> String {
         Body::Rem => format!("REM k{}", tag),
         Body::Stop => "STOP".to_string(),
         Body::Colons => if tag % 2 == 0 { ":".to_string() } else { ": :".to_string() },
+        Body::Word => format!("{} = {}", WORDS[tag as usize % WORDS.len()], tag),
     }
 }
 
@@ -81,6 +87,7 @@ fn listed(key: u64, body: &Body, tag: u32) -> String {
         Body::Rem => format!("{} REM k{}\n", key, tag),
         Body::Stop => format!("{} STOP\n", key),
         Body::Colons => format!("{} {}\n", key, if tag % 2 == 0 { ":" } else { ": :" }),
+        Body::Word => format!("{} {} = {}\n", key, WORDS[tag as usize % WORDS.len()], tag),
     }
 }
 
@@ -99,7 +106,7 @@ fn expected_run(m: &ModelMap, from: Option<u64>) -> (Vec<Rec>, Vec<u64>, Option<
         path.push(*k);
         match b {
             Body::Print => recs.push(Rec::Print(format!("k{}\n", t))),
-            Body::Rem | Body::Colons => {}
+            Body::Rem | Body::Colons | Body::Word => {}
             Body::Stop => {
                 recs.push(Rec::Break(Some(*k)));
                 return (recs, path, Some(*k));
@@ -367,6 +374,7 @@ impl Prop for C04 {
                         0 if stops => Body::Stop,
                         1..=2 => Body::Rem,
                         3 => Body::Colons,
+                        4 if rng.chance(1, 2) => Body::Word,
                         _ => Body::Print,
                     },
                     tag: i as u32,
